@@ -262,7 +262,7 @@ def main(chk, tier, seed):
     chk.rule = RULE
     chk.assumptions = ["per-channel FIFO delivery", "messages passed by reference (thread mode)",
                        "NCBB is only attempted; see ncbb_skipped / ncbb_on_new_cycle_calls_checked in coverage"]
-    n = 2100 if tier == "quick" else 20000
+    n = 2100 if tier == "quick" else 100000
     common.run_chunked(chk, "c08", n, nchunks=16 if tier == "quick" else 64,
                        job_extra={"nsched": 3 if tier == "quick" else 5}, timeout=3000)
     chk.inconclusive_if(chk.counters.get("ahead_buffered", 0) < 50, "next-round buffering hardly exercised")
